@@ -188,7 +188,7 @@ def h_router(ctx, ops):
     ctx.observe("log", log)
 
 
-def h_register_rtx(ctx):
+def h_register_rtx(ctx, layout="single"):
     """Two receivers that accept the same payload types (two bundled video sections), each announced
     with its media SSRC and its RTX SSRC: after RTCDtlsTransport._register_rtp_receiver a packet on
     either SSRC - the retransmission stream included - reaches the receiver it was announced for."""
@@ -207,9 +207,14 @@ def h_register_rtx(ctx):
             ctx.assume(ssrcs[i] != ssrcs[j], "announced SSRCs are distinct")
     codecs = [RTCRtpCodecParameters(mimeType="video/VP8", clockRate=90000, payloadType=96), RTCRtpCodecParameters(mimeType="video/rtx", clockRate=90000, payloadType=97, parameters={"apt": 96})]
     recvs = [Obj("R0"), Obj("R1")]
+    if layout == "rtx-on-later-codec":
+        # one encoding per media codec, all for the same stream; only VP8 has an RTX companion
+        codecs = [RTCRtpCodecParameters(mimeType="video/H264", clockRate=90000, payloadType=98)] + codecs
     for k, r in enumerate(recvs):
-        enc = RTCRtpDecodingParameters(ssrc=ssrcs[2 * k], payloadType=96, rtx=RTCRtpRtxParameters(ssrc=ssrcs[2 * k + 1]))
-        dtlsmod.RTCDtlsTransport._register_rtp_receiver(d, r, RTCRtpReceiveParameters(codecs=codecs, encodings=[enc], muxId=str(k)))
+        encs = [RTCRtpDecodingParameters(ssrc=ssrcs[2 * k], payloadType=96, rtx=RTCRtpRtxParameters(ssrc=ssrcs[2 * k + 1]))]
+        if layout == "rtx-on-later-codec":
+            encs.insert(0, RTCRtpDecodingParameters(ssrc=ssrcs[2 * k], payloadType=98))
+        dtlsmod.RTCDtlsTransport._register_rtp_receiver(d, r, RTCRtpReceiveParameters(codecs=codecs, encodings=encs, muxId=str(k)))
     ctx.reach("receivers-registered")
     for k, r in enumerate(recvs):
         got = d._rtp_router.route_rtp(RtpPacket(ssrc=ssrcs[2 * k], payload_type=96))
@@ -270,6 +275,55 @@ def h_compound(ctx, first, second):
     ctx.observe("n", len(got["S1"]))
 
 
+def h_rtcp_wire(ctx, form):
+    """RTCP datagrams in legal wire forms the library itself never produces (a BYE with the optional
+    reason-for-leaving text, a padded packet), fed as bytes
+    through _handle_rtcp_data: every packet still reaches exactly the endpoints it reports on."""
+    import aiortc.rtcdtlstransport as dtlsmod
+    from sx.shims import sx_pack
+
+    class Stand:
+        def __init__(self):
+            self._rtp_router = RtpRouter()
+
+        def _RTCDtlsTransport__log_debug(self, *a):
+            pass
+
+    d = Stand()
+    router = d._rtp_router
+    s1, r1, r2 = Obj("S1"), Obj("R1"), Obj("R2")
+    s_ssrc, r_ssrc, o_ssrc = ctx.int("sender_ssrc", 0, U32), ctx.int("remote_ssrc", 0, U32), ctx.int("other_remote_ssrc", 0, U32)
+    ctx.assume(r_ssrc != o_ssrc, "two remote streams, two SSRCs")
+    s1._ssrc = s_ssrc
+    got = {"S1": [], "R1": [], "R2": []}
+    for o in (s1, r1, r2):
+        async def h(packet, _n=o.name):
+            got[_n].append(type(packet).__name__)
+
+        o._handle_rtcp_packet = h
+    router.register_sender(s1, s_ssrc)
+    router.register_receiver(r1, ssrcs=[r_ssrc], payload_types=[96], mid=None)
+    router.register_receiver(r2, ssrcs=[o_ssrc], payload_types=[97], mid=None)
+    rr = sx.to_bytes(RtcpRrPacket(ssrc=r_ssrc, reports=[_rinfo(s_ssrc)]))
+    reason = b"\x03bye"
+    bye = bytes([0x81, 203, 0, 2]) + sx_pack("!L", r_ssrc) + reason
+    want = {"S1": [], "R1": [], "R2": []}
+    if form == "bye-reason":
+        data = bye
+        want["R1"] = ["RtcpByePacket"]
+    elif form == "rr-bye-reason":
+        data = rr + bye
+        want["S1"], want["R1"] = ["RtcpRrPacket"], ["RtcpByePacket"]
+    else:  # padded RR followed by nothing
+        data = bytes([0xA1, 201, 0, 8]) + rr[4:] + b"\x00\x00\x00\x04"
+        want["S1"] = ["RtcpRrPacket"]
+    sx.run(dtlsmod.RTCDtlsTransport._handle_rtcp_data(d, data))
+    ctx.reach("wire-dispatched")
+    for n in ("S1", "R1", "R2"):
+        ctx.check(got[n] == want[n], "wire-form-%s-reaches-exactly-its-endpoints" % form, "%s got %r" % (n, got[n]))
+    ctx.observe("got", sorted(k for k, v in got.items() if v))
+
+
 def _jobs(tier):
     import itertools
 
@@ -304,7 +358,8 @@ ENC = [
 ]
 
 HARNESSES = {
-    "register-rtx": Harness("register-rtx", h_register_rtx, lambda tier: [{}], style="STEP", bounds="two receivers sharing payload types 96/97, four symbolic distinct SSRCs (media + RTX each)", encoded=["aiortc.rtcdtlstransport:RTCDtlsTransport._register_rtp_receiver", "aiortc.rtcdtlstransport:RtpRouter.route_rtp"], twin="receivers-registered", opts={"samples": 1}),
+    "rtcp-wire": Harness("rtcp-wire", h_rtcp_wire, lambda tier: [{"form": f} for f in ("bye-reason", "rr-bye-reason", "padded-rr")], style="STEP", bounds="one datagram in each of three legal wire forms the library never produces itself (BYE with reason text, alone and after an RR; padded RR); one sender and two receivers with symbolic SSRCs", encoded=["aiortc.rtcdtlstransport:RTCDtlsTransport._handle_rtcp_data", "aiortc.rtcdtlstransport:RtpRouter.route_rtcp", "aiortc.rtp:RtcpPacket.parse", "aiortc.rtp:RtcpByePacket.parse", "aiortc.rtp:RtcpRrPacket.parse"], twin="wire-dispatched", opts={"samples": 1}),
+    "register-rtx": Harness("register-rtx", h_register_rtx, lambda tier: [{"layout": l} for l in ("single", "rtx-on-later-codec")], style="STEP", bounds="two receivers sharing payload types 96/97 (and 98), four symbolic distinct SSRCs (media + RTX each); one encoding, or one encoding per media codec with the RTX companion on the second", encoded=["aiortc.rtcdtlstransport:RTCDtlsTransport._register_rtp_receiver", "aiortc.rtcdtlstransport:RtpRouter.route_rtp"], twin="receivers-registered", opts={"samples": 1}),
     "compound": Harness("compound", h_compound, lambda tier: [{"first": a, "second": b} for a in ("nack", "rr") for b in ("pli", "rr", "nack")], style="STEP", bounds="compound datagram of two RTCP packets (NACK/RR then PLI/RR/NACK) for two senders with symbolic distinct SSRCs; the first recipient unregisters the second while it handles its packet", encoded=["aiortc.rtcdtlstransport:RTCDtlsTransport._handle_rtcp_data", "aiortc.rtcdtlstransport:RtpRouter.route_rtcp"], twin="compound-dispatched", opts={"samples": 1}),
     "router": Harness(
         "router",
